@@ -52,9 +52,8 @@ func c15PlanFor(tier string) *c15Plan {
 		for k := 1; k <= 4; k++ {
 			add(c15Full, k)
 		}
-		add(c15Mid, 5)
-		add(c15Small, 6)
-		p.nRnd = 1500000
+		add(c15Small, 5)
+		p.nRnd = 1000000
 	} else {
 		for k := 1; k <= 3; k++ {
 			add(c15Full, k)
@@ -127,7 +126,7 @@ func c15Compare(c *mon.Ctx, s string, origin string) {
 	if got != want {
 		d := detail()
 		d["tree_real"], d["tree_ref"] = clip(got, 600), clip(want, 600)
-		c.Violation("C15 tree-mismatch shape="+c15Shape(s), "parser built a different tree than the grammar prescribes", d)
+		c.Violation("C15 tree-mismatch "+xgen.Diff(tree, ref.Tree), "parser built a different tree than the grammar prescribes", d)
 	}
 	c.Count("trees_compared")
 	// CreateEvaluator accepts the same strings
